@@ -101,7 +101,12 @@ fn compile_native_asset_for_output(
     let policy = coercion::bytes_into_hash(policy.as_slice())?;
     let asset_name = coercion::expr_into_bytes(&ir.asset_name)?;
     let amount = coercion::expr_into_number(&ir.amount)?;
-    let amount = primitives::PositiveCoin::try_from(amount as u64).unwrap();
+    let Ok(amount) = primitives::PositiveCoin::try_from(coercion::number_into_u64(amount)?) else {
+        return Err(Error::CoerceError(
+            format!("{amount}"),
+            "PositiveCoin".to_string(),
+        ));
+    };
 
     let asset = asset!(policy, asset_name.clone(), amount);
 
@@ -118,9 +123,19 @@ fn compile_native_asset_for_mint(
     let amount = coercion::expr_into_number(&ir.amount)?;
 
     let amount = if !is_burn {
-        primitives::NonZeroInt::try_from(amount as i64).unwrap()
+        amount
     } else {
-        primitives::NonZeroInt::try_from(-amount as i64).unwrap()
+        amount.checked_neg().ok_or(Error::CoerceError(
+            format!("{amount}"),
+            "burn amount".to_string(),
+        ))?
+    };
+
+    let Ok(amount) = primitives::NonZeroInt::try_from(coercion::number_into_i64(amount)?) else {
+        return Err(Error::CoerceError(
+            format!("{amount}"),
+            "NonZeroInt".to_string(),
+        ));
     };
 
     let asset = asset!(policy, asset_name.clone(), amount);
@@ -138,7 +153,7 @@ fn compile_value(ir: &tir::AssetExpr) -> Result<primitives::Value, Error> {
     let amount = coercion::expr_into_number(&ir.amount)?;
     if ir.policy.is_none() {
         compile_ada_value(ir)
-    } else if amount as i64 > 0 {
+    } else if amount > 0 {
         let asset = compile_native_asset_for_output(ir)?;
         Ok(value!(0, asset))
     } else {
@@ -383,7 +398,7 @@ pub fn compile_withdrawal_directive(
         .get("amount")
         .ok_or(Error::MissingExpression("withdrawal amount".to_string()))?;
     let amount = coercion::expr_into_number(amount)?;
-    let amount = primitives::Coin::try_from(amount as u64).unwrap();
+    let amount: primitives::Coin = coercion::number_into_u64(amount)?;
 
     Ok((credential, amount))
 }
@@ -478,13 +493,15 @@ fn compile_validity(validity: Option<&tir::Validity>) -> Result<(Option<u64>, Op
         .and_then(|v| v.since.as_option())
         .map(coercion::expr_into_number)
         .transpose()?
-        .map(|n| n as u64);
+        .map(coercion::number_into_u64)
+        .transpose()?;
 
     let until = validity
         .and_then(|v| v.until.as_option())
         .map(coercion::expr_into_number)
         .transpose()?
-        .map(|n| n as u64);
+        .map(coercion::number_into_u64)
+        .transpose()?;
 
     Ok((since, until))
 }
@@ -497,12 +514,13 @@ fn compile_donation(tx: &tir::Tx) -> Result<Option<pallas::codec::utils::Positiv
         .map(coercion::expr_into_number)
         .transpose()?
         .map(|amount| {
-            pallas::codec::utils::PositiveCoin::try_from(amount as u64).map_err(|_| {
-                Error::CoerceError(
+            coercion::number_into_u64(amount)
+                .ok()
+                .and_then(|coin| pallas::codec::utils::PositiveCoin::try_from(coin).ok())
+                .ok_or(Error::CoerceError(
                     format!("Invalid donation amount: {}", amount),
                     "PositiveCoin".to_string(),
-                )
-            })
+                ))
         })
         .transpose()
 }
@@ -516,7 +534,7 @@ fn compile_tx_body(
     let out = primitives::TransactionBody {
         inputs: compile_inputs(tx)?.into(),
         outputs: compile_outputs(tx, network)?,
-        fee: coercion::expr_into_number(&tx.fees)? as u64,
+        fee: coercion::number_into_u64(coercion::expr_into_number(&tx.fees)?)?,
         certificates: primitives::NonEmptySet::from_vec(compile_certs(tx, network)?),
         mint: compile_mint_block(tx)?,
         reference_inputs: primitives::NonEmptySet::from_vec(compile_reference_inputs(tx)?),
@@ -545,7 +563,7 @@ fn compile_auxiliary_data(tx: &tir::Tx) -> Result<Option<primitives::AuxiliaryDa
         .metadata
         .into_iter()
         .map(|x| {
-            let key = expr_into_number(&x.key)? as u64;
+            let key = coercion::number_into_u64(expr_into_number(&x.key)?)?;
             let value = expr_into_metadatum(&x.value)?;
             Ok((key, value))
         })
